@@ -34,6 +34,7 @@ LIB_SOURCES = [
 ]
 
 _scratch_dirs = []
+_scratch_owner = {}
 _procs_lock = threading.Lock()
 _live_procs = set()
 
@@ -42,7 +43,22 @@ def scratch(prefix='cqv-'):
     base = os.environ.get('VERIF_SCRATCH', tempfile.gettempdir())
     d = tempfile.mkdtemp(prefix=prefix, dir=base)
     _scratch_dirs.append(d)
+    _scratch_owner[d] = threading.get_ident()
     return d
+
+
+def release_thread_scratch(keep_prefixes=('cqv-native-',)):
+    """Remove the scratch directories created by the calling thread (one obligation = one thread) as soon as the obligation
+    is done; shared build caches (native library) stay until the process exits."""
+    me = threading.get_ident()
+    for d, owner in list(_scratch_owner.items()):
+        if owner == me and not os.path.basename(d).startswith(tuple(keep_prefixes)):
+            shutil.rmtree(d, ignore_errors=True)
+            _scratch_owner.pop(d, None)
+            try:
+                _scratch_dirs.remove(d)
+            except ValueError:
+                pass
 
 
 def cleanup():
